@@ -71,6 +71,11 @@ def active_findings(pid):
 
 
 def _worker(task):
+    import faulthandler, signal
+    try:
+        faulthandler.register(signal.SIGUSR1, all_threads=False)    # kill -USR1 <pid> prints the Python stack
+    except Exception:
+        pass
     kind, case, root, split_depth = task
     chk = _CHECK[0]
     tier = _TIER[0]
